@@ -34,6 +34,7 @@ class Recorder(RankAggAlgorithm):
 
 
 class ParConsSuite(Suite):
+    escalate_cap = 120
     names_rate, past_rate = 0.08, 0.06     # hostile element names / datasets with a past (gen.decorate_cases)
     name = "parcons"
     imports = ["Scheme", "Rank", "Partition", "ParConsProof", "Judge.JOpt"]
